@@ -39,6 +39,21 @@ type fixedClock struct{ t time.Time }
 
 func (c fixedClock) Now() time.Time { return c.t }
 
+// WithClock runs f while the process-wide wall clock of the node software (common.Clock) shows t: a node that
+// verifies, syncs or replays the chain at another moment than the one it was produced at. The clock is restored
+// afterwards. Only for phases in which no node of the process produces (the pillar worker refuses to broadcast when
+// its clock is past the slot start).
+func WithClock(t time.Time, f func()) {
+	old := common.Clock
+	common.Clock = fixedClock{t: t}
+	defer func() { common.Clock = old }()
+	f()
+}
+
+// ClockSkews are the distances between "when the chain says it is" and "when the node's clock says it is" that
+// followers are run with: none, a node that is late by minutes, hours, epochs, years, and one whose clock is behind.
+var ClockSkews = []time.Duration{0, 95 * time.Minute, 26 * time.Hour, 9 * 24 * time.Hour, 5 * 365 * 24 * time.Hour, -36 * time.Hour, 7 * time.Second}
+
 var setupOnce sync.Once
 
 // Setup installs process globals once: a fixed clock, silent loggers, and the
